@@ -357,6 +357,23 @@ def build(seed: int, family: str | None = None) -> Scenario:
             if rs.rand() < 0.3:
                 d.default_label = int(rs.choice([0, -1, 5]))
             mc.add_move(d if rs.rand() < 0.6 else d * 2, criteria=CanonicalCriteria(), name="disp")
+    elif fam == "gcdrain":
+        # a grand-canonical run that tends to EMPTY the system (deletions favoured), with a composite displacement move
+        # that is called before and after the last movable particle has gone, and a single one
+        n0 = int(rs.randint(1, 3))
+        tmpl = Atoms("Cu", positions=[[0, 0, 0]])
+        atoms = make_atoms(rs, n0, f"Cu{n0}", extras=False)
+        atoms.calc = pick_calc(rs, atoms, allow=("harm", "pair"))
+        mc = GrandCanonical(atoms, exchange_atoms=tmpl, temperature=3000.0, chemical_potential=float(rs.choice([-3.0, -6.0])), number_of_exchange_particles=n0,
+                            max_cycles=int(rs.randint(2, 5)), seed=sim_seed, logfile=maybe_logfile(rs))
+        lab = np.arange(n0)
+        e = RecExch(lab.copy(), Translation(), bias_towards_insert=float(rs.choice([0.1, 0.25])))
+        mc.add_move(e, name="exch", probability=0.5)
+        d = RecDisp(lab.copy(), disp_op(rs, False))
+        attach_veto(sc, d, 0.2)
+        mc.add_move(d * int(rs.randint(2, 4)), criteria=CanonicalCriteria(), name="disp", probability=0.4)
+        d1 = RecDisp(lab.copy(), Ball(0.3))
+        mc.add_move(d1, criteria=CanonicalCriteria(), name="disp1", probability=0.1)
     else:
         raise ValueError(fam)
     sc.mc = mc
